@@ -41,7 +41,7 @@ pub fn systems(tier: Tier) -> Vec<(HttpSys, Limits, bool)> {
             a: Alphabet {
                 opts: WorldOpts { hashes: vec![0, 1], families: vec![true, false], ..Default::default() },
                 keys: 1,
-                scrapes: vec![vec![0, 0], vec![1, 0, NEVER], vec![NEVER, 1, 1, 0], vec![]],
+                scrapes: vec![vec![0, 0], vec![1, 0, NEVER], vec![NEVER, 1, 1, 0], vec![0, 0, 1], vec![]],
                 clock_max: 2,
                 ..base("A2-2x2-scrapelimit2")
             },
